@@ -130,7 +130,8 @@ def judge (f : List String) (ans : String) : String :=
           let equal := rxs == rys
           let feat := "\t" ++ (if equal then "equal" else "different") ++
             (if !equal && hx == hy then " collision" else "") ++
-            (if ((rxs.zip rys).filter fun (a, b) => a != b).length == 1 then " one-leaf-differs" else "") ++
+            (if ((rxs.zip rys).filter fun (a, b) => a != b).length == 1 then
+              " one-leaf-differs leaf" ++ toString ((rxs.zip rys).findIdx fun (a, b) => a != b) ++ "-differs" else "") ++
             (if swapped hxs hys then " two-components-exchanged" else "") ++
             (if swapped hxs hys && hx == hy then " exchange-collision" else "") ++
             (if rxs.length ≥ 2 then " nt" else "")
